@@ -250,6 +250,36 @@ class SCtx:
             self._conds[nid] = tuple(out)
         return self._conds[nid]
 
+    def guarded_values(self, expr, nid: int, depth: int = 5, excl=frozenset()) -> List[tuple]:
+        """[(term, conditions)] for the values `expr` may have at node nid, following plain name copies back to the
+        assignments they come from, each with the conditions under which that assignment runs (path correlation that a
+        bare alternative term `{a | b}` has lost).  Values refuted by a test on the way (`x is not None`,
+        `x is not _SENTINEL`) are left out."""
+        here = tuple(self.conds(nid))
+        if isinstance(expr, ast.Name) and depth > 0:
+            defs = self.cx.rd.reaching(nid, expr.id)
+            if defs and all(d.kind in ("assign", "param") and d.strong for d in defs):
+                out = []
+                excl = frozenset(excl) | frozenset(self.sym._known_not(expr.id, nid))
+                for d in defs:
+                    if d.kind == "param":
+                        out.append((self.sym.params.get(expr.id, ("param", -1, expr.id)), here))
+                    else:
+                        for t, cs in self.guarded_values(d.value, d.nid, depth - 1, excl):
+                            out.append((t, tuple(dict.fromkeys(cs + here))))
+                return out
+        if isinstance(expr, ast.IfExp):
+            out = []
+            for arm, pol in ((expr.body, True), (expr.orelse, False)):
+                c = tuple(S.conjuncts(S.norm_cond(pol, self.sym.of(expr.test, nid))))
+                for t, cs in self.guarded_values(arm, nid, depth - 1, excl):
+                    out.append((t, tuple(dict.fromkeys(cs + c))))
+            return out
+        t = self.sym.of(expr, nid)
+        if t in excl:
+            return []
+        return [(t, here)]
+
     def under(self, nid: int, pat) -> bool:
         return any(S.match(c, pat) is not None for c in self.conds(nid))
 
